@@ -116,6 +116,13 @@ impl<'a> Exec<'a> {
             let pick: Option<usize> = {
                 let mut w = world.borrow_mut();
                 w.tick_at("executor loop");
+                if w.cfg.clock_jumps && w.tape.chance(1, 6) {
+                    // time passes: a little or a lot
+                    let ns: u64 = [1_000_000, 1_000_000_000, 31_000_000_000, 601_000_000_000, 10_800_000_000_000][w.tape.draw(5)];
+                    crate::clock::jump(ns);
+                    w.stat("env.clock_jump");
+                    w.ev("clock.jump", ns / 1_000_000, 0);
+                }
                 let env_n = w.env_count(idle);
                 if idle && env_n == 0 {
                     return End::Quiescent;
